@@ -67,12 +67,32 @@ pub struct TableCfg {
 }
 
 #[derive(Clone, Debug, PartialEq, Eq, Serialize, Deserialize)]
+pub struct MergeSpec {
+    /// key column pick (index ncols = uid)
+    pub key: u8,
+    /// source rows: value seeds, and optionally "copy the key of the i-th existing row"
+    pub src: Vec<(RowSeed, Option<u16>)>,
+    /// 0 UpdateAll, 1 DoNothing, 2 Fail
+    pub matched: u8,
+    pub insert_not_matched: bool,
+    /// 0 Keep, 1 Delete, 2 DeleteIf(pred)
+    pub by_source: u8,
+    pub by_source_pred: RawPred,
+    /// sub-schema source: the non-key columns to include (fractions); None = full schema
+    pub partial: Option<Vec<u8>>,
+    pub use_index: bool,
+}
+
+#[derive(Clone, Debug, PartialEq, Eq, Serialize, Deserialize)]
 pub enum Op {
     Append { rows: Vec<RowSeed>, splits: Vec<u16>, max_rows_per_file: u16 },
     Overwrite { rows: Vec<RowSeed>, max_rows_per_file: u16 },
     Delete { pred: RawPred },
     Update { pred: Option<RawPred>, sets: Vec<(u8, RawSet)> },
+    Merge(MergeSpec),
     Compact { target_rows: u16, materialize: bool, threshold_pct: u8, defer_remap: bool, max_rows_per_group: u16 },
+    CompactTasks { target_rows: u16, materialize: bool, threshold_pct: u8, defer_remap: bool, picks: Vec<u16>, reverse: bool, split_commits: bool },
+    JoinColumn { keys: Vec<u16>, ty: u8, seed: u16 },
     CreateIndex { col: u8, kind: u8, replace: bool },
     DropIndex { which: u8 },
     OptimizeIndices { mode: u8 },
@@ -92,7 +112,10 @@ impl Op {
             Op::Overwrite { .. } => "overwrite",
             Op::Delete { .. } => "delete",
             Op::Update { .. } => "update",
+            Op::Merge(_) => "merge_insert",
             Op::Compact { .. } => "compact",
+            Op::CompactTasks { .. } => "compact_tasks",
+            Op::JoinColumn { .. } => "join_column",
             Op::CreateIndex { .. } => "create_index",
             Op::DropIndex { .. } => "drop_index",
             Op::OptimizeIndices { .. } => "optimize_indices",
@@ -170,9 +193,31 @@ pub fn raw_set() -> impl Strategy<Value = RawSet> {
 pub fn op_update() -> impl Strategy<Value = Op> {
     (prop::option::weighted(0.85, raw_pred()), prop::collection::vec((any::<u8>(), raw_set()), 1..3)).prop_map(|(pred, sets)| Op::Update { pred, sets })
 }
+pub fn op_merge() -> impl Strategy<Value = Op> {
+    (
+        any::<u8>(),
+        prop::collection::vec((row_seed(), prop::option::weighted(0.6, any::<u16>())), 1..8),
+        prop_oneof![4 => Just(0u8), 2 => Just(1u8), 1 => Just(2u8)],
+        prop::bool::weighted(0.7),
+        prop_oneof![5 => Just(0u8), 1 => Just(1u8), 1 => Just(2u8)],
+        raw_pred(),
+        prop::option::weighted(0.3, prop::collection::vec(any::<u8>(), 0..3)),
+        any::<bool>(),
+    )
+        .prop_map(|(key, src, matched, insert_not_matched, by_source, by_source_pred, partial, use_index)| {
+            Op::Merge(MergeSpec { key, src, matched, insert_not_matched, by_source, by_source_pred, partial, use_index })
+        })
+}
 pub fn op_compact() -> impl Strategy<Value = Op> {
     (prop_oneof![Just(4u16), Just(8), Just(50), Just(1000)], any::<bool>(), 0u8..100, any::<bool>(), prop_oneof![Just(2u16), Just(1024)])
         .prop_map(|(target_rows, materialize, threshold_pct, defer_remap, max_rows_per_group)| Op::Compact { target_rows, materialize, threshold_pct, defer_remap, max_rows_per_group })
+}
+pub fn op_compact_tasks() -> impl Strategy<Value = Op> {
+    (prop_oneof![Just(4u16), Just(8), Just(50)], any::<bool>(), 0u8..100, any::<bool>(), prop::collection::vec(any::<u16>(), 0..4), any::<bool>(), any::<bool>())
+        .prop_map(|(target_rows, materialize, threshold_pct, defer_remap, picks, reverse, split_commits)| Op::CompactTasks { target_rows, materialize, threshold_pct, defer_remap, picks, reverse, split_commits })
+}
+pub fn op_join_column() -> impl Strategy<Value = Op> {
+    (prop::collection::vec(any::<u16>(), 0..8), any::<u8>(), 0u16..40).prop_map(|(keys, ty, seed)| Op::JoinColumn { keys, ty, seed })
 }
 pub fn op_create_index() -> impl Strategy<Value = Op> {
     (any::<u8>(), 0u8..2, any::<bool>()).prop_map(|(col, kind, replace)| Op::CreateIndex { col, kind, replace })
@@ -181,7 +226,8 @@ pub fn op_schema() -> impl Strategy<Value = Op> {
     prop_oneof![
         3 => (0u8..3, any::<u8>(), any::<u8>(), 0u16..40).prop_map(|(kind, ty, src, lit)| Op::AddColumn { kind, ty, src, lit }),
         2 => any::<u8>().prop_map(|col| Op::DropColumn { col }),
-        2 => (any::<u8>(), 0u8..3).prop_map(|(col, action)| Op::AlterColumn { col, action }),
+        3 => (any::<u8>(), 0u8..4).prop_map(|(col, action)| Op::AlterColumn { col, action }),
+        1 => op_join_column(),
     ]
 }
 pub fn op_misc() -> impl Strategy<Value = Op> {
@@ -202,6 +248,7 @@ pub fn any_op() -> BoxedStrategy<Op> {
         1 => op_overwrite(),
         4 => op_delete(),
         4 => op_update(),
+        3 => op_merge(),
         3 => op_compact(),
         2 => op_create_index(),
         3 => op_schema(),
@@ -234,14 +281,15 @@ pub struct VersionState {
 pub struct Effect {
     pub kind: &'static str,
     pub delete: BTreeSet<i64>,
-    /// uid -> new values (whole row under the schema at the read version)
-    pub update: BTreeMap<i64, Vec<Val>>,
+    /// uid -> new row (uid and values under the schema at the read version)
+    pub update: BTreeMap<i64, Row>,
     pub insert: Vec<Row>,
     pub overwrite: Option<(TableSchema, Vec<Row>)>,
     pub add_col: Option<(ColSpec, BTreeMap<i64, Val>)>,
     pub drop_col: Option<u32>,
     pub rename: Option<(u32, String)>,
     pub set_nullable: Option<(u32, bool)>,
+    pub cast: Option<(u32, ColType)>,
     pub config_set: BTreeMap<String, Option<String>>,
     pub index_add: Option<(String, String)>,
     pub index_drop: Option<String>,
@@ -278,11 +326,12 @@ pub fn apply_effect(base: &VersionState, e: &Effect, versions: &BTreeMap<u64, Ve
         let mut moved = vec![];
         let mut kept = vec![];
         for r in s.rows.drain(..) {
-            if let Some(newvals) = e.update.get(&r.uid) {
+            if let Some(newrow) = e.update.get(&r.uid) {
                 let mut nr = r.clone();
+                nr.uid = newrow.uid;
                 for (i, c) in e.read_schema.cols.iter().enumerate() {
                     if let Some((j, _)) = s.schema.col_by_cid(c.cid) {
-                        nr.vals[j] = newvals[i].clone();
+                        nr.vals[j] = newrow.vals[i].clone();
                     }
                 }
                 moved.push(nr);
@@ -337,6 +386,13 @@ pub fn apply_effect(base: &VersionState, e: &Effect, versions: &BTreeMap<u64, Ve
         let Some((i, _)) = s.schema.col_by_cid(*cid) else { return Err(format!("altered column (cid {cid}) does not exist")) };
         s.schema.cols[i].nullable = *nullable;
     }
+    if let Some((cid, to)) = &e.cast {
+        let Some((i, _)) = s.schema.col_by_cid(*cid) else { return Err(format!("cast column (cid {cid}) does not exist")) };
+        s.schema.cols[i].ty = *to;
+        let name = s.schema.cols[i].name.clone();
+        // the index on a cast column is dropped (the field is rewritten)
+        s.indices.retain(|_, c| *c != name);
+    }
     for (k, v) in &e.config_set {
         match v {
             Some(v) => {
@@ -353,7 +409,7 @@ pub fn apply_effect(base: &VersionState, e: &Effect, versions: &BTreeMap<u64, Ve
     if let Some(name) = &e.index_drop {
         s.indices.remove(name);
     }
-    if e.reorders {
+    if e.reorders || e.kind == "merge_insert" {
         s.ordered = false;
     }
     Ok(s)
@@ -457,6 +513,7 @@ pub fn row_from_seed(schema: &TableSchema, uid: i64, seed: &RowSeed) -> Row {
 // ---------------------------------------------------------------------------
 // the world
 
+#[derive(Clone)]
 pub struct World {
     pub store: VStore,
     pub session: Arc<Session>,
@@ -476,6 +533,18 @@ pub struct World {
     pub index_nullable_cols: bool,
     /// generate stale row writes racing a non-nullable column add (C03 only)
     pub allow_nonnull_add_race: bool,
+    /// allow NULLs in merge_insert key columns (C12 only)
+    pub merge_null_keys: bool,
+    /// ids of listed known findings whose exact discrepancy the model reproduces (set by the property from Env)
+    pub known: std::collections::HashSet<String>,
+    /// merge_insert only on the uid column (keeps uid = row identity; C07/C17/C18)
+    pub merge_on_uid_only: bool,
+    /// effect of the last committed step
+    pub last_effect: Option<Effect>,
+    /// names of dropped columns, candidates for re-use by a later add
+    pub dropped_names: Vec<String>,
+    /// indexed columns whose rows were rewritten by an update/merge while the index existed (stable row ids)
+    pub stale_indexed_cols: BTreeSet<String>,
 }
 
 pub enum StepOutcome {
@@ -553,7 +622,8 @@ impl World {
                 .cols
                 .iter()
                 .enumerate()
-                .map(|(i, (t, n))| ColSpec { name: format!("c{i}"), ty: ColType::ALL[*t as usize % ColType::ALL.len()], nullable: *n, cid: i as u32 + 1 })
+                // the legacy (0.1) format does not store NULLs faithfully for all types (documented limitation): non-nullable there
+                .map(|(i, (t, n))| ColSpec { name: format!("c{i}"), ty: ColType::ALL[*t as usize % ColType::ALL.len()], nullable: *n && cfg.storage % 4 != 0, cid: i as u32 + 1 })
                 .collect(),
         }
     }
@@ -587,6 +657,12 @@ impl World {
             rebased_commits: 0,
             index_nullable_cols: false,
             allow_nonnull_add_race: false,
+            merge_null_keys: false,
+            known: crate::engine::ACTIVE_KNOWN.with(|k| k.borrow().clone()),
+            merge_on_uid_only: false,
+            last_effect: None,
+            dropped_names: vec![],
+            stale_indexed_cols: BTreeSet::new(),
         };
         w.versions.insert(v, VersionState { schema, rows, ordered: true, config: BTreeMap::new(), indices: BTreeMap::new() });
         w.latest = v;
@@ -637,17 +713,42 @@ impl World {
         };
         let at = self.versions[&read_version].clone();
         let before_latest = self.latest;
-        if stale && !self.allow_nonnull_add_race && matches!(step.op, Op::Append { .. } | Op::Update { .. }) {
+        if stale && !self.allow_nonnull_add_race && matches!(step.op, Op::Append { .. } | Op::Update { .. } | Op::Merge(_)) {
             // Known finding C03-append-vs-nonnull-add: rows written at an older schema lack a
             // concurrently added non-nullable column and the table becomes unreadable.  Other
             // properties exclude exactly this shape; C03 reports it.
             let latest_schema = &self.versions[&self.latest].schema;
-            if latest_schema.cols.iter().any(|c| !c.nullable && at.schema.col(&c.name).is_none()) {
+            // a non-nullable column that did not exist (as the same field) at the read version: added, or rewritten by a cast
+            // ... or any column that was cast since (the field was replaced: values written under the old field are lost)
+            if latest_schema.cols.iter().any(|c| (!c.nullable && !at.schema.cols.iter().any(|o| o.cid == c.cid && o.ty == c.ty)) || at.schema.cols.iter().any(|o| o.cid == c.cid && o.ty != c.ty)) {
                 obs.label("excluded:stale-write-vs-nonnull-add");
                 return Ok(StepOutcome::NoOp);
             }
         }
 
+        if self.cfg.storage % 4 == 0 && matches!(step.op, Op::AddColumn { .. } | Op::AlterColumn { .. } | Op::JoinColumn { .. }) {
+            // the legacy (0.1) format cannot represent NULLs of every type (documented); schema evolution, which
+            // introduces nullable columns, is only exercised on the 2.x formats
+            obs.label("excluded:schema-evolution-on-legacy-storage");
+            return Ok(StepOutcome::NoOp);
+        }
+        if self.known.contains("C16-simplifier-null-tautology") {
+            let risky = match &step.op {
+                Op::Delete { pred } | Op::Update { pred: Some(pred), .. } => tautology_risk(&resolve_pred(pred, &at.schema), &at.schema),
+                Op::Merge(m) if m.by_source % 3 == 2 => tautology_risk(&resolve_pred(&m.by_source_pred, &at.schema), &at.schema),
+                _ => false,
+            };
+            if risky {
+                obs.known_hit("C16-simplifier-null-tautology", format!("{} skipped: predicate holds a comparison and its complement on a nullable column", step.op.kind()));
+                return Ok(StepOutcome::NoOp);
+            }
+        }
+        if matches!(step.op, Op::OptimizeIndices { .. }) && self.cfg.stable_row_ids && !self.stale_indexed_cols.is_empty() && self.known.contains("C19-stale-index-after-update-stable-rowids") {
+            // Known finding: with stable row ids, optimize_indices merges the old entries of rewritten rows into the
+            // new index segment, which then answers with their old values.
+            obs.known_hit("C19-stale-index-after-update-stable-rowids", format!("optimize_indices skipped; rewritten indexed columns {:?}", self.stale_indexed_cols));
+            return Ok(StepOutcome::NoOp);
+        }
         let (res, effect) = self.run_op(&step.op, &mut handle, &at, stale, obs).await?;
         if std::env::var("VERIF_TRACE").is_ok() {
             eprintln!("[trace] {} stale={stale} read_version={read_version} latest={} -> {:?} effect={}", step.op.kind(), self.latest, res, effect.as_ref().map(|e| e.kind).unwrap_or("-"));
@@ -696,6 +797,17 @@ impl World {
                 }
                 self.versions.insert(now, new_state);
                 self.latest = now;
+                self.last_effect = Some(effect.clone());
+                if !effect.update.is_empty() && self.cfg.stable_row_ids {
+                    let idx_cols: Vec<String> = self.versions[&before_latest].indices.values().cloned().collect();
+                    self.stale_indexed_cols.extend(idx_cols);
+                }
+                if let Some((_, col)) = &effect.index_add {
+                    self.stale_indexed_cols.remove(col);
+                }
+                if effect.overwrite.is_some() || effect.restore.is_some() {
+                    self.stale_indexed_cols.clear();
+                }
                 self.history.push(step.op.kind().to_string());
                 if stale {
                     self.rebased_commits += 1;
@@ -812,12 +924,14 @@ impl World {
                     targets.insert(i, (sql, f));
                 }
                 let mut overflow = false;
+                let mut hit_rows = 0u64;
                 for r in &at.rows {
                     let hit = match &p {
                         None => true,
                         Some(p) => eval_row(p, &at.schema, r) == Some(true),
                     };
                     if hit {
+                        hit_rows += 1;
                         let mut nv = r.vals.clone();
                         for (i, (_, f)) in &targets {
                             let v = f(r);
@@ -828,7 +942,7 @@ impl World {
                             }
                             nv[*i] = v;
                         }
-                        e.update.insert(r.uid, nv);
+                        e.update.insert(r.uid, Row { uid: r.uid, vals: nv });
                     }
                 }
                 obs.label(if e.update.is_empty() { "update-none" } else { "update-some" });
@@ -857,8 +971,8 @@ impl World {
                         if overflow {
                             return Err(Failure::new("update-overflow-accepted", "an UPDATE whose result overflows the column type was accepted".to_string()));
                         }
-                        if res.rows_updated != e.update.len() as u64 {
-                            return Err(Failure::new("update-rows-updated", format!("rows_updated = {} but the model updates {} rows", res.rows_updated, e.update.len())));
+                        if res.rows_updated != hit_rows {
+                            return Err(Failure::new("update-rows-updated", format!("rows_updated = {} but the model updates {} rows", res.rows_updated, hit_rows)));
                         }
                         Ok(())
                     }
@@ -868,6 +982,10 @@ impl World {
                     obs.label("update-overflow-rejected");
                 }
                 Ok((r, Some(e)))
+            }
+            Op::Merge(m) => {
+                e.kind = "merge_insert";
+                self.run_merge(m, h, at, stale, obs, e).await
             }
             Op::Compact { target_rows, materialize, threshold_pct, defer_remap, max_rows_per_group } => {
                 e.kind = "compact";
@@ -883,6 +1001,95 @@ impl World {
                     ..Default::default()
                 };
                 let r = compact_files(h, opts, None).await.map(|_| ()).map_err(lerr);
+                Ok((r, Some(e)))
+            }
+            Op::CompactTasks { target_rows, materialize, threshold_pct, defer_remap, picks, reverse, split_commits } => {
+                e.kind = "compact";
+                e.reorders = true;
+                use lance::dataset::index::DatasetIndexRemapperOptions;
+                use lance::dataset::optimize::{commit_compaction, plan_compaction};
+                let mut opts = CompactionOptions {
+                    target_rows_per_fragment: *target_rows as usize,
+                    materialize_deletions: *materialize,
+                    materialize_deletions_threshold: *threshold_pct as f32 / 100.0,
+                    defer_index_remap: *defer_remap,
+                    num_threads: Some(1),
+                    ..Default::default()
+                };
+                opts.validate();
+                let plan = match plan_compaction(h, &opts).await {
+                    Ok(p) => p,
+                    Err(err) => return Ok((Err(lerr(err)), Some(e))),
+                };
+                let tasks: Vec<_> = plan.compaction_tasks().collect();
+                if tasks.is_empty() {
+                    return Ok((Ok(()), None));
+                }
+                let mut chosen: Vec<usize> = if picks.is_empty() { (0..tasks.len()).collect() } else { picks.iter().map(|p| idx(*p, tasks.len())).collect() };
+                chosen.sort_unstable();
+                chosen.dedup();
+                if *reverse {
+                    chosen.reverse();
+                }
+                obs.label(format!("compaction-tasks-{}of{}", chosen.len().min(4), tasks.len().min(4)));
+                let mut results = vec![];
+                for t in &chosen {
+                    match tasks[*t].execute(h).await {
+                        Ok(r) => results.push(r),
+                        Err(err) => return Ok((Err(lerr(err)), Some(e))),
+                    }
+                }
+                let remap = Arc::new(DatasetIndexRemapperOptions::default());
+                let r = if *split_commits && results.len() >= 2 {
+                    let second = results.split_off(results.len() / 2);
+                    match commit_compaction(h, results, remap.clone(), &opts).await {
+                        Ok(_) => commit_compaction(h, second, remap, &opts).await.map(|_| ()).map_err(lerr),
+                        Err(err) => Err(lerr(err)),
+                    }
+                } else {
+                    commit_compaction(h, results, remap, &opts).await.map(|_| ()).map_err(lerr)
+                };
+                Ok((r, Some(e)))
+            }
+            Op::JoinColumn { keys, ty, seed } => {
+                // Dataset::merge: left join on uid with a generated right side covering some rows
+                e.kind = "add_column";
+                self.col_counter += 1;
+                let cid = self.col_counter;
+                let name = match self.dropped_names.pop() {
+                    Some(n) if seed % 2 == 0 => {
+                        obs.label("re-added-dropped-name");
+                        n
+                    }
+                    Some(n) => {
+                        self.dropped_names.push(n);
+                        format!("j{cid}")
+                    }
+                    None => format!("j{cid}"),
+                };
+                if at.schema.col(&name).is_some() {
+                    return Ok((Ok(()), None));
+                }
+                let t = ColType::ALL[*ty as usize % ColType::ALL.len()];
+                let spec = ColSpec { name: name.clone(), ty: t, nullable: true, cid };
+                let mut right: BTreeMap<i64, Val> = BTreeMap::new();
+                for (k, f) in keys.iter().enumerate() {
+                    if at.rows.is_empty() {
+                        break;
+                    }
+                    let r = &at.rows[idx(*f, at.rows.len())];
+                    right.insert(r.uid, finite(val_from_seed(t, true, seed.wrapping_add(k as u16 * 5))));
+                }
+                // plus one key that matches nothing
+                right.insert(-7, finite(val_from_seed(t, true, *seed)));
+                let ks: Vec<i64> = right.keys().copied().collect();
+                let vs: Vec<Val> = right.values().cloned().collect();
+                let schema = Arc::new(arrow_schema::Schema::new(vec![arrow_schema::Field::new("rk", arrow_schema::DataType::Int64, false), arrow_schema::Field::new(&name, t.arrow(), true)]));
+                let batch = RecordBatch::try_new(schema.clone(), vec![Arc::new(arrow_array::Int64Array::from(ks)), make_array(t, &mut vs.iter())]).unwrap();
+                let reader = RecordBatchIterator::new(vec![Ok(batch)], schema);
+                let r = h.merge(reader, UID, "rk").await.map_err(lerr);
+                right.remove(&-7);
+                e.add_col = Some((spec, right));
                 Ok((r, Some(e)))
             }
             Op::CreateIndex { col, kind, replace } => {
@@ -930,7 +1137,17 @@ impl World {
             Op::AddColumn { kind, ty, src, lit } => {
                 e.kind = "add_column";
                 self.col_counter += 1;
-                let name = format!("n{}", self.col_counter);
+                let name = match self.dropped_names.pop() {
+                    Some(n) if lit % 2 == 0 && at.schema.col(&n).is_none() => {
+                        obs.label("re-added-dropped-name");
+                        n
+                    }
+                    Some(n) => {
+                        self.dropped_names.push(n);
+                        format!("n{}", self.col_counter)
+                    }
+                    None => format!("n{}", self.col_counter),
+                };
                 match kind % 3 {
                     0 => {
                         // all nulls
@@ -969,6 +1186,9 @@ impl World {
                 }
                 let c = at.schema.cols[*col as usize % at.schema.cols.len()].clone();
                 let r = h.drop_columns(&[c.name.as_str()]).await.map_err(lerr);
+                if r.is_ok() {
+                    self.dropped_names.push(c.name.clone());
+                }
                 e.drop_col = Some(c.cid);
                 Ok((r, Some(e)))
             }
@@ -978,6 +1198,33 @@ impl World {
                     return Ok((Ok(()), None));
                 }
                 let c = at.schema.cols[*col as usize % at.schema.cols.len()].clone();
+                if action % 4 == 3 {
+                    // cast within a family; a lossy cast must be rejected (CastOptions { safe: false })
+                    let to = match c.ty {
+                        ColType::I8 => ColType::I32,
+                        ColType::I16 => ColType::I64,
+                        ColType::I32 => ColType::I64,
+                        ColType::I64 => ColType::I32,
+                        ColType::U8 => ColType::U32,
+                        ColType::U32 => ColType::U8,
+                        ColType::F32 => ColType::F64,
+                        ColType::Utf8 => ColType::LargeUtf8,
+                        ColType::LargeUtf8 => ColType::Utf8,
+                        _ => return Ok((Ok(()), None)),
+                    };
+                    let (ci, _) = at.schema.col(&c.name).unwrap();
+                    let lossy = at.rows.iter().any(|r| match (&r.vals[ci], to.int_range()) {
+                        (Val::I(x), Some((lo, hi))) => *x < lo || *x > hi,
+                        _ => false,
+                    });
+                    let r = h.alter_columns(&[ColumnAlteration::new(c.name.clone()).cast_to(to.arrow())]).await.map_err(lerr);
+                    if r.is_ok() && lossy {
+                        return Err(Failure::new("lossy-cast-accepted", format!("cast of {} from {:?} to {:?} accepted although a value does not fit", c.name, c.ty, to)));
+                    }
+                    obs.label(if lossy { "cast-lossy" } else { "cast-lossless" });
+                    e.cast = Some((c.cid, to));
+                    return Ok((r, Some(e)));
+                }
                 match action % 3 {
                     0 => {
                         self.col_counter += 1;
@@ -1085,6 +1332,234 @@ impl World {
         }
     }
 
+    /// merge_insert against the SQL MERGE model (DESIGN C12)
+    async fn run_merge(&mut self, m: &MergeSpec, h: &mut Dataset, at: &VersionState, stale: bool, obs: &mut Obs, mut e: Effect) -> Result<(Result<(), String>, Option<Effect>), Failure> {
+        use lance::dataset::{MergeInsertBuilder, WhenMatched, WhenNotMatched, WhenNotMatchedBySource};
+        let ncols = at.schema.cols.len();
+        // key column: uid or a column; NULL keys only when enabled (C12)
+        let n = ncols + 1;
+        let start = if self.merge_on_uid_only { ncols } else { m.key as usize % n };
+        let mut key_idx: Option<usize> = None; // None = uid
+        let mut found = false;
+        for k in 0..n {
+            let i = (start + k) % n;
+            if i == ncols {
+                key_idx = None;
+                found = true;
+                break;
+            }
+            let c = &at.schema.cols[i];
+            if c.ty.is_float() {
+                continue; // float join keys (NaN, -0.0) are not a sound merge key domain
+            }
+            if self.merge_null_keys || !c.nullable {
+                key_idx = Some(i);
+                found = true;
+                break;
+            }
+        }
+        if !found {
+            return Ok((Ok(()), None));
+        }
+        let key_name = key_idx.map(|i| at.schema.cols[i].name.clone()).unwrap_or_else(|| UID.to_string());
+        let key_of = |r: &Row| -> Val { key_idx.map(|i| r.vals[i].clone()).unwrap_or(Val::I(r.uid as i128)) };
+        // source rows
+        let mut src: Vec<Row> = vec![];
+        for (seed, copy) in &m.src {
+            let mut r = self.fresh_row(&at.schema, seed);
+            if let (Some(f), false) = (copy, at.rows.is_empty()) {
+                let t = &at.rows[idx(*f, at.rows.len())];
+                match key_idx {
+                    Some(i) => r.vals[i] = t.vals[i].clone(),
+                    None => r.uid = t.uid,
+                }
+            }
+            src.push(r);
+        }
+        // sub-schema: key + chosen columns (uid is not part of a sub-schema source unless it is the key)
+        let partial_cols: Option<Vec<usize>> = m.partial.as_ref().map(|p| {
+            let mut v: Vec<usize> = p.iter().filter(|_| ncols > 0).map(|c| *c as usize % ncols.max(1)).filter(|i| Some(*i) != key_idx).collect();
+            v.sort_unstable();
+            v.dedup();
+            v
+        });
+        let matched_mode = m.matched % 3;
+        let by_source_pred = resolve_pred(&m.by_source_pred, &at.schema);
+        // ---- model (SQL MERGE) ----
+        let mut expect_err: Option<&'static str> = None;
+        let mut n_upd = 0u64;
+        let mut n_ins = 0u64;
+        let mut n_del = 0u64;
+        let mut matched_source = vec![false; src.len()];
+        let mut null_key_seen = false;
+        for t in &at.rows {
+            let tk = key_of(t);
+            let ms: Vec<usize> = src.iter().enumerate().filter(|(_, s)| !tk.is_null() && sql_cmp(&key_of(s), &tk) == Some(std::cmp::Ordering::Equal)).map(|(i, _)| i).collect();
+            if tk.is_null() {
+                null_key_seen = true;
+            }
+            for i in &ms {
+                matched_source[*i] = true;
+            }
+            if !ms.is_empty() {
+                match matched_mode {
+                    0 => {
+                        if ms.len() > 1 {
+                            expect_err = Some("ambiguous");
+                        }
+                        let srow = &src[ms[0]];
+                        let new = match &partial_cols {
+                            None => srow.clone(),
+                            Some(cols) => {
+                                let mut nr = t.clone();
+                                for c in cols {
+                                    nr.vals[*c] = srow.vals[*c].clone();
+                                }
+                                nr
+                            }
+                        };
+                        e.update.insert(t.uid, new);
+                        n_upd += 1;
+                    }
+                    1 => {}
+                    _ => expect_err = Some("fail-on-match"),
+                }
+            } else {
+                let mut del = match m.by_source % 3 {
+                    0 => false,
+                    1 => true,
+                    _ => eval_row(&by_source_pred, &at.schema, t) == Some(true),
+                };
+                if del && tk.is_null() && self.known.contains("C12-merge-null-key-source-dropped") {
+                    // same known finding: a row whose key is NULL is invisible to merge_insert on either side
+                    obs.known_hit("C12-merge-null-key-source-dropped", format!("target row {:?} with NULL key not deleted by the by-source clause", t));
+                    del = false;
+                }
+                if del {
+                    e.delete.insert(t.uid);
+                    n_del += 1;
+                }
+            }
+        }
+        if src.iter().any(|s| key_of(s).is_null()) {
+            null_key_seen = true;
+        }
+        if m.insert_not_matched {
+            for (i, srow) in src.iter().enumerate() {
+                if !matched_source[i] {
+                    if key_of(srow).is_null() {
+                        // Known finding C12-merge-null-key-source-dropped: lance ignores source rows whose key is NULL
+                        // (SQL MERGE inserts them: a NULL key matches nothing).
+                        if self.known.contains("C12-merge-null-key-source-dropped") {
+                            obs.known_hit("C12-merge-null-key-source-dropped", format!("source row {:?}", srow));
+                            continue;
+                        }
+                    }
+                    let mut r = srow.clone();
+                    if let Some(cols) = &partial_cols {
+                        // columns absent from a sub-schema source are NULL in inserted rows
+                        for (c, v) in r.vals.iter_mut().enumerate() {
+                            if !cols.contains(&c) && Some(c) != key_idx {
+                                *v = Val::Null;
+                            }
+                        }
+                    }
+                    e.insert.push(r);
+                    n_ins += 1;
+                }
+            }
+        }
+        if null_key_seen {
+            obs.label("merge-null-key");
+        }
+        obs.label(format!("merge-m{}-i{}-d{}{}", matched_mode, m.insert_not_matched as u8, m.by_source % 3, if partial_cols.is_some() { "-partial" } else { "" }));
+        if n_upd > 0 && n_ins > 0 {
+            obs.label("merge-updates-and-inserts");
+        }
+        // ---- lance ----
+        let (src_schema, batch) = match &partial_cols {
+            None => (at.schema.clone(), rows_to_batch(&at.schema, &src)),
+            Some(cols) => {
+                // sub-schema: [uid if key] + key col + chosen cols, in table order
+                let mut sub = TableSchema::default();
+                let mut keep: Vec<usize> = cols.clone();
+                if let Some(k) = key_idx {
+                    keep.push(k);
+                }
+                keep.sort_unstable();
+                keep.dedup();
+                for i in &keep {
+                    sub.cols.push(at.schema.cols[*i].clone());
+                }
+                let rows: Vec<Row> = src.iter().map(|r| Row { uid: r.uid, vals: keep.iter().map(|i| r.vals[*i].clone()).collect() }).collect();
+                let full = rows_to_batch(&sub, &rows);
+                if key_idx.is_none() {
+                    (sub, full)
+                } else {
+                    // drop uid from the source
+                    let idxs: Vec<usize> = (1..full.num_columns()).collect();
+                    (sub, full.project(&idxs).unwrap())
+                }
+            }
+        };
+        let _ = src_schema;
+        let mut b = match MergeInsertBuilder::try_new(Arc::new(h.clone()), vec![key_name.clone()]) {
+            Ok(b) => b,
+            Err(err) => return Ok((Err(lerr(err)), Some(e))),
+        };
+        b.when_matched(match matched_mode {
+            0 => WhenMatched::UpdateAll,
+            1 => WhenMatched::DoNothing,
+            _ => WhenMatched::Fail,
+        });
+        b.when_not_matched(if m.insert_not_matched { WhenNotMatched::InsertAll } else { WhenNotMatched::DoNothing });
+        match m.by_source % 3 {
+            0 => {
+                b.when_not_matched_by_source(WhenNotMatchedBySource::Keep);
+            }
+            1 => {
+                b.when_not_matched_by_source(WhenNotMatchedBySource::Delete);
+            }
+            _ => match WhenNotMatchedBySource::delete_if(h, &by_source_pred.sql()) {
+                Ok(x) => {
+                    b.when_not_matched_by_source(x);
+                }
+                Err(err) => return Ok((Err(lerr(err)), Some(e))),
+            },
+        }
+        b.use_index(m.use_index);
+        if stale {
+            b.conflict_retries(0);
+        }
+        let job = match b.try_build() {
+            Ok(j) => j,
+            Err(err) => return Ok((Err(lerr(err)), Some(e))),
+        };
+        let schema = batch.schema();
+        let reader = RecordBatchIterator::new(vec![Ok(batch)], schema);
+        let r = job.execute_reader(reader).await;
+        match r {
+            Ok((_ds, stats)) => {
+                if let Some(why) = expect_err {
+                    return Err(Failure::new(format!("merge-accepted:{why}"), format!("merge_insert on {key_name} succeeded although the model requires failure ({why}); stats {stats:?}")));
+                }
+                if (stats.num_updated_rows, stats.num_inserted_rows, stats.num_deleted_rows) != (n_upd, n_ins, n_del) {
+                    return Err(Failure::new(
+                        "merge-stats",
+                        format!("merge_insert on {key_name}: stats updated/inserted/deleted = {}/{}/{} but the model says {n_upd}/{n_ins}/{n_del}", stats.num_updated_rows, stats.num_inserted_rows, stats.num_deleted_rows),
+                    ));
+                }
+                Ok((Ok(()), Some(e)))
+            }
+            Err(err) => {
+                if expect_err.is_some() {
+                    obs.label("merge-expected-failure");
+                }
+                Ok((Err(lerr(err)), Some(e)))
+            }
+        }
+    }
+
     fn fresh_row(&mut self, schema: &TableSchema, seed: &RowSeed) -> Row {
         let uid = self.next_uid;
         self.next_uid += 1;
@@ -1154,3 +1629,173 @@ pub async fn verify_state(ds: &Dataset, st: &VersionState, what: &str) -> Result
     Ok(())
 }
 
+
+
+/// (uid, _rowid, _row_created_at_version, _row_last_updated_at_version) of every visible row
+pub async fn scan_meta(ds: &Dataset) -> Result<Vec<(i64, u64, Option<u64>, Option<u64>)>, String> {
+    use arrow_array::{Array, Int64Array, UInt64Array};
+    let mut sc = ds.scan();
+    sc.project(&[UID, "_row_created_at_version", "_row_last_updated_at_version"]).map_err(lerr)?;
+    sc.with_row_id();
+    let batches: Vec<RecordBatch> = sc.try_into_stream().await.map_err(lerr)?.try_collect().await.map_err(lerr)?;
+    let mut out = vec![];
+    for b in &batches {
+        let uid = b.column_by_name(UID).and_then(|c| c.as_any().downcast_ref::<Int64Array>().cloned()).ok_or("no uid column")?;
+        let rid = b.column_by_name("_rowid").and_then(|c| c.as_any().downcast_ref::<UInt64Array>().cloned()).ok_or("no _rowid column")?;
+        let cr = b.column_by_name("_row_created_at_version").and_then(|c| c.as_any().downcast_ref::<UInt64Array>().cloned()).ok_or_else(|| format!("no _row_created_at_version column in {:?}", b.schema()))?;
+        let up = b.column_by_name("_row_last_updated_at_version").and_then(|c| c.as_any().downcast_ref::<UInt64Array>().cloned()).ok_or("no _row_last_updated_at_version column")?;
+        for i in 0..b.num_rows() {
+            out.push((uid.value(i), rid.value(i), if cr.is_null(i) { None } else { Some(cr.value(i)) }, if up.is_null(i) { None } else { Some(up.value(i)) }));
+        }
+    }
+    Ok(out)
+}
+
+
+/// uids returned by a filtered scan with scalar index use forced on or off
+pub async fn filtered_uids(ds: &Dataset, sql: &str, use_index: bool) -> Result<Vec<i64>, String> {
+    use arrow_array::Int64Array;
+    let mut sc = ds.scan();
+    sc.project(&[UID]).map_err(lerr)?;
+    sc.filter(sql).map_err(lerr)?;
+    sc.use_scalar_index(use_index);
+    let batches: Vec<RecordBatch> = sc.try_into_stream().await.map_err(lerr)?.try_collect().await.map_err(lerr)?;
+    let mut out = vec![];
+    for b in &batches {
+        let u = b.column_by_name(UID).and_then(|c| c.as_any().downcast_ref::<Int64Array>().cloned()).ok_or("no uid column")?;
+        out.extend(u.values().iter().copied());
+    }
+    out.sort_unstable();
+    Ok(out)
+}
+
+pub async fn plan_uses_scalar_index(ds: &Dataset, sql: &str) -> bool {
+    let mut sc = ds.scan();
+    if sc.filter(sql).is_err() {
+        return false;
+    }
+    sc.use_scalar_index(true);
+    sc.explain_plan(false).await.map(|p| p.contains("ScalarIndexQuery")).unwrap_or(false)
+}
+
+/// For every scalar-indexed column of `st`, a panel of predicates built from `seeds` must return the
+/// same uid set with the index, without it, and in the model.  `negations`: also generate <>, NOT, NOT IN.
+pub async fn check_indexed_queries(ds: &Dataset, st: &VersionState, seeds: &[u16], negations: bool, obs: &mut Obs, what: &str) -> Result<usize, Failure> {
+    check_indexed_queries_opts(ds, st, seeds, negations, None, obs, what).await
+}
+
+/// `known_null_neg`: id of the listed known finding "a negation over an exact index answer re-admits NULL rows";
+/// when given, exactly that discrepancy is counted as a known hit instead of failing.
+pub async fn check_indexed_queries_opts(ds: &Dataset, st: &VersionState, seeds: &[u16], negations: bool, known_null_neg: Option<&str>, obs: &mut Obs, what: &str) -> Result<usize, Failure> {
+    let mut used = 0;
+    let mut cols: Vec<String> = st.indices.values().cloned().collect();
+    cols.sort();
+    cols.dedup();
+    for col in cols {
+        let Some((_, spec)) = st.schema.col(&col) else { continue };
+        let ty = spec.ty;
+        let lit = |s: u16| finite(lit_from_seed(ty, s));
+        let mut preds: Vec<BExpr> = vec![];
+        for (k, s) in seeds.iter().enumerate() {
+            if ty == ColType::Bool {
+                preds.push(BExpr::Cmp { col: col.clone(), ty, op: CmpOp::Eq, lit: Val::B(s % 2 == 0) });
+                continue;
+            }
+            let op = CmpOp::ALL[(*s as usize + k) % 6];
+            if op != CmpOp::Ne || negations {
+                preds.push(BExpr::Cmp { col: col.clone(), ty, op, lit: lit(*s) });
+            }
+            if k % 3 == 1 {
+                preds.push(BExpr::Between { col: col.clone(), ty, lo: lit(*s), hi: lit(s.wrapping_add(5)), negated: negations && k % 2 == 0 });
+            }
+            if k % 3 == 2 {
+                preds.push(BExpr::InList { col: col.clone(), ty, list: vec![lit(*s), lit(s.wrapping_add(3))], negated: negations && k % 2 == 1 });
+            }
+            if negations && k % 4 == 3 {
+                preds.push(BExpr::Not(Box::new(BExpr::Cmp { col: col.clone(), ty, op: CmpOp::Eq, lit: lit(*s) })));
+            }
+        }
+        preds.push(BExpr::IsNull { col: col.clone() });
+        if negations {
+            preds.push(BExpr::IsNotNull { col: col.clone() });
+        }
+        for p in preds {
+            let sql = p.sql();
+            if sql.contains("NaN") {
+                continue;
+            }
+            let mut want: Vec<i64> = st.rows.iter().filter(|r| eval_row(&p, &st.schema, r) == Some(true)).map(|r| r.uid).collect();
+            want.sort_unstable();
+            let with = match filtered_uids(ds, &sql, true).await {
+                Ok(v) => v,
+                Err(m) => {
+                    // the un-indexed scan decides whether this is a planner rejection
+                    if filtered_uids(ds, &sql, false).await.is_err() {
+                        obs.rejected += 1;
+                        continue;
+                    }
+                    return Err(Failure::new("indexed-scan-error", format!("{what}: {sql:?} fails only with the index: {m}")));
+                }
+            };
+            let without = filtered_uids(ds, &sql, false).await.map_err(|m| Failure::new("unindexed-scan-error", format!("{what}: {sql:?}: {m}")))?;
+            obs.inner += 1;
+            // floats with NaN / -0.0: only the metamorphic relation is asserted
+            let float_special = ty.is_float() && crate::model::NAN_MODE.with(|m| m.get());
+            if without != want && !float_special {
+                return Err(Failure::new("unindexed-vs-model", format!("{what}: {sql:?} without index returns uids {without:?}, model {want:?}")));
+            }
+            if with != without {
+                // classify: the indexed answer is a superset whose extra rows all hold NULL in the indexed column, under a negation
+                let (ci, _) = st.schema.col(&col).unwrap();
+                let extra: Vec<i64> = with.iter().filter(|u| !without.contains(u)).copied().collect();
+                let missing = without.iter().any(|u| !with.contains(u));
+                let extra_all_null = !extra.is_empty() && extra.iter().all(|u| st.rows.iter().any(|r| r.uid == *u && r.vals[ci].is_null()));
+                let simplifies_to_not = matches!(&p, BExpr::Cmp { ty: ColType::Bool, .. });
+                if !missing && extra_all_null && (p.has_negation() || simplifies_to_not) {
+                    if let Some(id) = known_null_neg {
+                        obs.known_hit(id, format!("{what}: {sql:?} with index also returns NULL rows {extra:?}"));
+                        continue;
+                    }
+                    return Err(Failure::new("indexed-vs-unindexed:null-under-negation", format!("{what}: {sql:?} with index returns uids {with:?}, without {without:?} (extra rows hold NULL)")));
+                }
+                return Err(Failure::new("indexed-vs-unindexed", format!("{what}: {sql:?} with index returns uids {with:?}, without {without:?}")));
+            }
+            if plan_uses_scalar_index(ds, &sql).await {
+                used += 1;
+            }
+        }
+    }
+    if used > 0 {
+        obs.label("index-actually-used");
+    }
+    Ok(used)
+}
+
+
+/// Known finding C16-simplifier-null-tautology: DataFusion's simplifier (used by lance's planner) folds an OR chain
+/// that contains a comparison and its complement on the same column (`x <> a OR ... OR x = a`) to TRUE even when
+/// x is nullable.  True if `p` contains such a pair (same column, same literal, complementary operators) or the
+/// AND-dual, on a nullable column.
+pub fn tautology_risk(p: &BExpr, schema: &TableSchema) -> bool {
+    // observed trigger: a nullable column that appears in an IN / NOT IN list and in at least one more
+    // comparison or list of the same expression (the simplifier's in-list merging rules ignore NULL)
+    fn walk(p: &BExpr, out: &mut std::collections::BTreeMap<String, (usize, usize)>) {
+        match p {
+            BExpr::Cmp { col, .. } | BExpr::Between { col, .. } => out.entry(col.clone()).or_insert((0, 0)).0 += 1,
+            BExpr::InList { col, .. } => {
+                let e = out.entry(col.clone()).or_insert((0, 0));
+                e.0 += 1;
+                e.1 += 1;
+            }
+            BExpr::Not(a) => walk(a, out),
+            BExpr::And(a, b) | BExpr::Or(a, b) => {
+                walk(a, out);
+                walk(b, out);
+            }
+            _ => {}
+        }
+    }
+    let mut m = std::collections::BTreeMap::new();
+    walk(p, &mut m);
+    m.iter().any(|(col, (atoms, lists))| *lists >= 1 && *atoms >= 2 && schema.col(col).map(|(_, c)| c.nullable).unwrap_or(false))
+}
